@@ -9,6 +9,7 @@ type Item struct {
 	Kind    string   // "struct" | "func"
 	Name    string   // Go identifier of the struct type / of the function (ground truth)
 	Methods []string // struct: exported handler methods, sorted bytewise
+	HID     string   // func: handler identity when it is not NS:Name (method expressions, method values)
 	Obj     interface{}
 }
 
